@@ -14,6 +14,7 @@ import (
 	"sort"
 	"strings"
 	"sync/atomic"
+	"time"
 
 	"github.com/jamf/regatta/storage/kv"
 	dbsm "github.com/lni/dragonboat/v4/statemachine"
@@ -22,18 +23,21 @@ import (
 )
 
 type caseID struct {
-	Layer int   `json:"layer"`
-	Seed  int64 `json:"case_seed"`
+	Layer     int   `json:"layer"`
+	Seed      int64 `json:"case_seed"`
+	SizeClass int   `json:"value_size_class,omitempty"` // layer 1: see sizeClassOf
 }
 
 type opDesc struct {
 	Index  uint64 `json:"index"`
 	Op     string `json:"op"`
 	Key    string `json:"key"`
-	Val    string `json:"value,omitempty"`
+	Val    string `json:"-"`
+	Shown  string `json:"value,omitempty"` // Val, long values cut (the case is regenerated from its seed)
 	Ver    uint64 `json:"version"`
 	How    string `json:"version_choice"`
 	Result string `json:"result,omitempty"`
+	cmd    []byte // the proposal, encoded once (several replicas apply it)
 }
 
 type witness1 struct {
@@ -65,8 +69,11 @@ func proposal(o opDesc) []byte {
 
 func entriesOf(ops []opDesc) []dbsm.Entry {
 	es := make([]dbsm.Entry, len(ops))
-	for i, o := range ops {
-		es[i] = dbsm.Entry{Index: o.Index, Cmd: proposal(o)}
+	for i := range ops {
+		if ops[i].cmd == nil {
+			ops[i].cmd = proposal(ops[i])
+		}
+		es[i] = dbsm.Entry{Index: ops[i].Index, Cmd: ops[i].cmd}
 	}
 	return es
 }
@@ -93,7 +100,7 @@ func applyCuts(sm dbsm.IConcurrentStateMachine, ops []opDesc, cuts []int) ([]dbs
 }
 
 func outcomeOf(res dbsm.Result) outcome {
-	o := outcome{Code: res.Value, PairRaw: string(res.Data)}
+	o := outcome{Code: res.Value, Raw: res.Data}
 	var p pairJ
 	if err := json.Unmarshal(res.Data, &p); err == nil {
 		o.Pair, o.PairOK = p, true
@@ -125,9 +132,36 @@ func (q query) req() interface{} {
 
 func (q query) String() string { return fmt.Sprintf("%s(%q)", q.Kind, q.Arg) }
 
+// render is for messages, witnesses and samples only (never for comparisons): long strings
+// are cut and identified by length and digest.
 func render(v interface{}, err error) string {
 	if err != nil {
 		return "error: " + err.Error()
+	}
+	switch x := v.(type) {
+	case kv.Pair:
+		x.Value = short(x.Value)
+		v = x
+	case []kv.Pair:
+		c := make([]kv.Pair, len(x))
+		for i, p := range x {
+			p.Value = short(p.Value)
+			c[i] = p
+		}
+		v = c
+	case []pairJ:
+		c := make([]pairJ, len(x))
+		for i, p := range x {
+			p.Value = short(p.Value)
+			c[i] = p
+		}
+		v = c
+	case []string:
+		c := make([]string, len(x))
+		for i, e := range x {
+			c[i] = short(e)
+		}
+		v = c
 	}
 	b, _ := json.Marshal(v)
 	return string(b)
@@ -194,7 +228,7 @@ func judgeLookup(m *CAS, q query, got interface{}, gerr error) (why string, judg
 		}
 		p, isPair := got.(kv.Pair)
 		if gerr != nil || !isPair || (pairJ{p.Key, p.Value, p.Ver}) != (pairJ{q.Arg, c.Val, c.Ver}) {
-			return fmt.Sprintf("expected {%q %q %d}, answer %s", q.Arg, c.Val, c.Ver, render(got, gerr)), true
+			return fmt.Sprintf("expected {%q %q %d}, answer %s", q.Arg, short(c.Val), c.Ver, render(got, gerr)), true
 		}
 		return "", true
 	case "exists":
@@ -291,6 +325,22 @@ func runSeq(r *ev.Run, id caseID) {
 
 	n := 6 + g.r.Intn(50)
 	idx := uint64(g.r.Intn(5))
+	sizeClass := id.SizeClass // 0: small values only; else a handful of boundary-sized values
+	if sizeClass >= 2 && n > 40-sizeClass*10 {
+		n = 40 - sizeClass*10 // shorter sequences around the very large values (cost)
+	}
+	t0 := time.Now() // informational (evidence: where the time goes), never a verdict
+	defer func() {
+		cnt(fmt.Sprintf("layer1_cases_value_size_class_%d", sizeClass), 1)
+		cnt(fmt.Sprintf("layer1_busy_ms_value_size_class_%d", sizeClass), time.Since(t0).Milliseconds())
+	}()
+	nSized, nLarge, n64 := 0, 0, 0
+	// every sized case stores its largest value once for sure: early, alone in its apply batch,
+	// with the key's current version; a snapshot is prepared right after (forceSnap)
+	forceAt := 2 + g.r.Intn(4)
+	if sizeClass == 0 {
+		forceAt = -1
+	}
 	var (
 		allRes       []dbsm.Result
 		hist         = map[string][]uint64{}
@@ -301,6 +351,7 @@ func runSeq(r *ev.Run, id caseID) {
 		midSnapshot  bool
 		snapAtPoints []int
 		sig          strings.Builder
+		forceSnap    bool // a value of >= ~64 KiB was just stored: take a snapshot while it is there
 	)
 	for len(w.Ops) < n {
 		bs := 1
@@ -309,6 +360,10 @@ func runSeq(r *ev.Run, id caseID) {
 		}
 		if bs > n-len(w.Ops) {
 			bs = n - len(w.Ops)
+		}
+		forced := forceAt >= 0 && len(w.Ops) >= forceAt
+		if forced {
+			bs, forceAt = 1, -1
 		}
 		start := len(w.Ops)
 		for j := 0; j < bs; j++ {
@@ -328,7 +383,30 @@ func runSeq(r *ev.Run, id caseID) {
 			} else {
 				o.Val = g.value()
 			}
+			sized := o.Op == kv.UpdateOpSet && sizeClass > 0 && nSized < 6 && g.r.Intn(100) < 14
+			if sized {
+				nSized++
+				o.Val = sizedValue(g.r, pickSize(g.r, sizeClass, &nLarge, &n64), fmt.Sprintf("s%d-", idx))
+			}
+			o.Shown = short(o.Val)
 			o.Ver, o.How = g.version(m, o.Key, hist[o.Key], idx)
+			if sized && g.r.Intn(10) < 7 {
+				o.Ver, o.How = m.M[o.Key].Ver, "current"
+			}
+			if forced {
+				size := []int{0, boundarySizes[5+g.r.Intn(4)], 128 << 10, 1 << 20}[sizeClass]
+				if sizeClass == 1 && g.r.Intn(2) == 0 {
+					size = 65536 - g.r.Intn(160)
+				}
+				if sizeClass >= 2 {
+					nLarge++
+				} else {
+					n64++
+				}
+				o.Op, o.Val = kv.UpdateOpSet, sizedValue(g.r, size, fmt.Sprintf("s%d-", idx))
+				o.Shown = short(o.Val)
+				o.Ver, o.How = m.M[o.Key].Ver, "current"
+			}
 			if o.Op == kv.UpdateOpDelete && g.r.Intn(2) == 0 {
 				o.Ver, o.How = m.M[o.Key].Ver, "current"
 			}
@@ -356,10 +434,10 @@ func runSeq(r *ev.Run, id caseID) {
 		}
 		for j := range batch {
 			o := &w.Ops[start+j]
-			o.Result = fmt.Sprintf("%d %s", resA[j].Value, resA[j].Data)
+			o.Result = fmt.Sprintf("%d %s", resA[j].Value, short(string(resA[j].Data)))
 			at := fmt.Sprintf("update #%d (index %d %s %q ver %d)", start+j, o.Index, o.Op, o.Key, o.Ver)
 			if resA[j].Value != resB[j].Value || !bytes.Equal(resA[j].Data, resB[j].Data) {
-				fail("replicas-disagree:update-result:"+B.kind, at, fmt.Sprintf("original answered %d %s, %s replica answered %d %s", resA[j].Value, resA[j].Data, B.kind, resB[j].Value, resB[j].Data))
+				fail("replicas-disagree:update-result:"+B.kind, at, fmt.Sprintf("original answered %d %s, %s replica answered %d %s", resA[j].Value, short(string(resA[j].Data)), B.kind, resB[j].Value, short(string(resB[j].Data))))
 				return
 			}
 			prev, existed := m.M[o.Key]
@@ -371,7 +449,13 @@ func runSeq(r *ev.Run, id caseID) {
 			cnt("updates", 1)
 			cnt("update:"+class, 1)
 			dst("version_choices", o.How+"/"+class)
-			fmt.Fprintf(&sig, "%s|%s|%q|%d|%s;", o.Op, o.Key, o.Val, o.Ver, class)
+			fmt.Fprintf(&sig, "%s|%s|%q|%d|%s;", o.Op, o.Key, o.Shown, o.Ver, class)
+			if class == "set-ok" || class == "create-v0" || class == "create-vN" {
+				cnt("set_ok_value_size:"+sizeBucket(len(o.Val)), 1)
+				if len(o.Val) >= 65000 {
+					forceSnap = true
+				}
+			}
 			switch class {
 			case "set-ok", "delete-ok":
 				hist[o.Key] = append(hist[o.Key], prev.Ver)
@@ -394,7 +478,15 @@ func runSeq(r *ev.Run, id caseID) {
 
 		// snapshot transfer: prepare now, save (possibly after further updates), recover into a
 		// fresh or a lagging instance, let it catch up, and make it the second replica.
-		if pend == nil && g.r.Intn(100) < 22 {
+		if draw := g.r.Intn(100); pend == nil && (draw < 22 || forceSnap) {
+			forceSnap = false
+			largest := 0
+			for _, c := range m.M {
+				if len(c.Val) > largest {
+					largest = len(c.Val)
+				}
+			}
+			cnt("snapshots_largest_value:"+sizeBucket(largest), 1)
 			src := A
 			if g.r.Intn(3) == 0 {
 				src = B
@@ -445,7 +537,7 @@ func runSeq(r *ev.Run, id caseID) {
 					a := allRes[pend.at+j]
 					if a.Value != resT[j].Value || !bytes.Equal(a.Data, resT[j].Data) {
 						fail("replicas-disagree:update-result:"+T.kind, fmt.Sprintf("catch-up update #%d (index %d) after snapshot prepared at %d", pend.at+j, rest[j].Index, pend.at),
-							fmt.Sprintf("original answered %d %s, %s replica answered %d %s", a.Value, a.Data, T.kind, resT[j].Value, resT[j].Data))
+							fmt.Sprintf("original answered %d %s, %s replica answered %d %s", a.Value, short(string(a.Data)), T.kind, resT[j].Value, short(string(resT[j].Data))))
 						return
 					}
 				}
@@ -513,7 +605,11 @@ func runSeq(r *ev.Run, id caseID) {
 		if len(ops) > 8 {
 			ops = ops[:8]
 		}
+		fm := map[string]cell{}
+		for k, c := range m.M {
+			fm[k] = cell{short(c.Val), c.Ver}
+		}
 		r.Sample(map[string]any{"layer": 1, "case_seed": id.Seed, "key_pool": w.Pool, "updates": len(w.Ops), "first_updates": ops,
-			"apply_batches": w.Batches, "snapshot_events": w.Events, "final_model": m.M})
+			"apply_batches": w.Batches, "snapshot_events": w.Events, "final_model": fm, "value_size_class": sizeClass})
 	}
 }
